@@ -79,6 +79,20 @@ theorem full_solve_linear_solver_only (hbeq : ((0 : α) == 0) = true) {B : KktSo
       (({ S with st := { S.st with kktsystem := { S.st.kktsystem with kktsolver := K' } } } : Solver α).solve st) :=
   solve_rel hbeq hsim st (Stale.swapSolver S.st K' hB) (SolShape.rfl' _ _) (Or.inr ⟨rfl, rfl, rfl⟩)
 
+/-- [S] `C05.full_solve_info_block_dead` (connects `solve_is_function_of_data` / `full_solve_info_irrelevant`
+to the six `prev_*` fields): replace the WHOLE `info` block of a solver object — the nine figures, `μ`,
+`σ`, `step_length`, `iterations`, `status` AND `prev_*` — by anything: `solve()` gives the same
+observable result.  (`prev_*` are read only under `iter > 1`, after `save_prev_iterate` of this solve.) -/
+theorem full_solve_info_block_dead (hbeq : ((0 : α) == 0) = true) (st : Solver.Settings α) (S : Solver α)
+    (i : InfoS α) (a b c : α) :
+    RelM SolveObs (S.solve st) (({ S with st := withInfo S.st i a b c } : Solver α).solve st) :=
+  solve_rel hbeq qdldl_kktSim st
+    { data := rfl, variables := VarsShape.of_eq rfl, residuals := ResidShape.of_eq rfl,
+      kktsystem := ⟨QW.rfl' _, rfl, rfl, rfl, rfl, rfl, rfl, SameFrom.rfl' _ _⟩,
+      cones := ConesShape.rfl' _, stepLhs := StepShape.of_eq rfl, stepRhs := StepShape.of_eq rfl,
+      prevVars := VarsShape.of_eq rfl }
+    (SolShape.rfl' _ _) (Or.inr ⟨rfl, rfl, rfl⟩)
+
 /-- [S] `C05.full_solve_stale_qdldl`: the same for the concrete linear solver of the model (QDLDL):
 given the structural facts (`SameShape`, `WellSized`: lengths and shapes, which `solve()` preserves),
 the two `0 · stale` conditions of (ii), (iii), and the hypothesis `QW` of (iv) on the two KKT solver
@@ -102,6 +116,58 @@ theorem full_solve_stale_field (hbeq : ((0 : α) == 0) = true) (h0l : ∀ a : α
     (hinit : InitPointOk (resetInfo S.st) st ∨ VarsXSZ S.st.variables S'.st.variables) :
     RelM SolveObs (S.solve st) (S'.solve st) :=
   full_solve_stale_qdldl hbeq st hsh hw hK (zmulR_of_size h0r hsh.Px) (zmulL_of_size h0l hsh.workx) hsol hinit
+
+/-- [S] `C05.full_solve_idempotent_finite_partial`: **the same solver solved twice.**  If the first
+`solve()` on a solver object returned `r1`, then the second `solve()` on the object it left returns
+the same observable result — the same `solution` (status, `x, s, z`, objectives, iterations,
+residuals), the same trajectory pass by pass, the same final iterate and `info` figures — provided
+  (ii)  the first solve left "finite state" in the two buffers that are read through a multiplication
+        by zero, in the exact form: `Px·0` and `0·workx` are entrywise the same before and after (at
+        `Float`: the entries left there are finite and carry the sign bit of the ones that were there
+        before — `+0` in a new solver; a sign flip can only turn a `+0` entry of `−q` / `P·x` into `−0`);
+  (iii) `solve_initial_point` succeeds (otherwise the iterate of the first solve is the start of the second);
+  (iv)  `QW`: `KKTSolver::update` rewrites every numeric entry of the linear solver object that the
+        first solve changed.
+`ConesOk`, `WellSized` and `hsz` are structural facts about the object (every object built by
+`DefaultSolver::new` has them: `solverNew_frame`; `solve()` preserves them, so the theorem chains to
+a third, fourth … call).
+FULL STATEMENT (`full_solve_idempotent_finite`), not proved: the same without hypothesis (iv).  (iv) is
+a statement about `KKTSolver::update` alone (C11 `update_*`: every non-`P`/`A` entry of the KKT matrix
+and of the engine's permuted copy is rewritten; C12 `refactor_eq_fresh`: `L, D, D⁻¹` do not depend on
+the previous factors); its derivation needs the well-formedness invariants of the QDLDL workspace
+carried through a whole solve.  It is checked on the implementation by the `update-does-not-forget`
+oracle of channel `meta.repeat`. -/
+theorem full_solve_idempotent_finite_partial (hbeq : ((0 : α) == 0) = true) (st : Solver.Settings α) {S : Solver α}
+    {r1 : SolveResult α} (h1 : S.solve st = .ok r1) (hc : ConesOk S.st.cones) (hw : WellSized S.st)
+    (hsz : ∀ n, (presolveMap S.st.data).map (fun m => m.keep.size) = some n →
+      S.solution.s.size ≤ n ∧ S.solution.z.size ≤ n)
+    (hPx : zmulR S.st.residuals.Px = zmulR r1.S.st.residuals.Px)
+    (hwx : zmulL S.st.kktsystem.workx = zmulL r1.S.st.kktsystem.workx)
+    (hinit : InitPointOk (resetInfo S.st) st)
+    (hK : QW S.st.kktsystem.kktsolver r1.S.st.kktsystem.kktsolver) :
+    (∃ r2, r1.S.solve st = .ok r2 ∧ SolveObs r1 r2)
+      ∧ ConesOk r1.S.st.cones ∧ WellSized r1.S.st :=
+  ⟨solve_twice_obs hbeq st h1 hc hw hsz hK hPx hwx hinit, solve_conesOk h1 hc, solve_wellSized h1 hc hw⟩
+
+/-- [F] `C05.full_solve_idempotent_field_partial`: over a ring/field (`0·a = 0 = a·0`) condition (ii) is
+void: the second solve gives the result of the first given (iii) and (iv) only. -/
+theorem full_solve_idempotent_field_partial (hbeq : ((0 : α) == 0) = true) (h0l : ∀ a : α, 0 * a = 0)
+    (h0r : ∀ a : α, a * 0 = 0) (st : Solver.Settings α) {S : Solver α}
+    {r1 : SolveResult α} (h1 : S.solve st = .ok r1) (hc : ConesOk S.st.cones) (hw : WellSized S.st)
+    (hsz : ∀ n, (presolveMap S.st.data).map (fun m => m.keep.size) = some n →
+      S.solution.s.size ≤ n ∧ S.solution.z.size ≤ n)
+    (hinit : InitPointOk (resetInfo S.st) st)
+    (hK : QW S.st.kktsystem.kktsolver r1.S.st.kktsystem.kktsolver) :
+    ∃ r2, r1.S.solve st = .ok r2 ∧ SolveObs r1 r2 :=
+  have hsh := solve_sameShape h1 hc
+  solve_twice_obs hbeq st h1 hc hw hsz hK (zmulR_of_size h0r hsh.Px) (zmulL_of_size h0l hsh.workx) hinit
+
+/-- [S] `C05.full_new_solver_is_well_formed`: the structural hypotheses of the two theorems above hold
+for every solver object built by `DefaultSolver::new`. -/
+theorem full_new_solver_is_well_formed {P : Csc α} {q : Array α} {A : Csc α} {b : Array α}
+    {cones : List (ConeT α)} {st : Solver.Settings α} {perm : Array Nat} {S : Solver α}
+    (h : Solver.new P q A b cones st perm = .ok S) : ConesOk S.st.cones ∧ WellSized S.st :=
+  solverNew_frame h
 
 end stale
 
@@ -129,7 +195,17 @@ example (S : Solver Int) :
     ⟨fun c s h => h.update c s, fun h => h, qdldl_kktSim.solve⟩ (st 3) S _
     (QB.set _ (junk_size _ _) rfl rfl (junk_size _ _))
 
-/-- the scalar hypotheses of `full_solve_stale_field` at `Int` -/
+/-- the hypotheses of `full_solve_idempotent_finite_partial` on the example: `DefaultSolver::new` succeeds
+(`run3`), the object it builds is well formed, `solve_initial_point` succeeds on it, no presolver (so
+`hsz` is void); hypothesis (iv) `QW` holds between any two objects that differ in the content of the
+four work vectors (`QB.toQW`) — its instance "before / after a solve" is the fact that is not derived -/
+example {S : Solver Int} (h : newSolver 3 = .ok S) :
+    (ConesOk S.st.cones ∧ WellSized S.st) ∧ InitPointOk (resetInfo S.st) (st 3)
+      ∧ QW S.st.kktsystem.kktsolver { S.st.kktsystem.kktsolver with b := junk S.st.kktsystem.kktsolver.b 3 } :=
+  ⟨full_new_solver_is_well_formed h, example_initPointOk h,
+    (QB.set _ rfl (junk_size _ _) rfl rfl).toQW⟩
+
+/-- the scalar hypotheses of `full_solve_stale_field` / `full_solve_idempotent_field_partial` at `Int` -/
 example : (((0 : Int) == 0) = true) ∧ (∀ a : Int, 0 * a = 0) ∧ (∀ a : Int, a * 0 = 0) :=
   ⟨by decide, Int.zero_mul, Int.mul_zero⟩
 
